@@ -37,6 +37,16 @@ func NewC17(tier string) *C17 {
 	return c
 }
 
+// edgeValidator: a validator whose operator address is a given 20-byte pattern (the registry is a set of
+// byte-ordered key ranges: the first and the last possible address sit at their borders).
+func edgeValidator(name string, fill byte, last byte) hub.Validator {
+	b := bytes.Repeat([]byte{fill}, 20)
+	b[19] = last
+	v := hub.NewValidator(name)
+	v.Oper, v.Acc = sdk.ValAddress(b), sdk.AccAddress(b)
+	return v
+}
+
 func (c *C17) ID() string               { return "C17" }
 func (c *C17) Setup(in *hub.Instance)   { in.AnteSeq = true }
 func (c *C17) SeedPaths() [][]engine.Op { return [][]engine.Op{{}} }
@@ -258,8 +268,19 @@ func init() {
 		two := NewC17(tier)
 		one := NewC17(tier)
 		one.Chains = []string{"ethereum"} // longer re-registration sequences on a single chain
+		// operator addresses at the borders of the byte-ordered key space (0xff.., 0x00..)
+		edge := NewC17(tier)
+		edge.Chains = []string{"ethereum"}
+		edge.Vals = []hub.Validator{edgeValidator("A", 0xff, 0xfe), edgeValidator("B", 0x00, 0x01), hub.NewValidator("C")}
+		edge.Orchs[2] = edge.Vals[1].Acc
+		edge2 := NewC17(tier)
+		edge2.Chains = []string{"ethereum"}
+		edge2.Vals = []hub.Validator{edgeValidator("A", 0x00, 0x00), edgeValidator("B", 0xff, 0xff), hub.NewValidator("C")}
+		edge2.Orchs[2] = edge2.Vals[1].Acc
 		return []MultiCase{{Name: "chains ethereum, bsc", Spec: two, Cfg: engine.Config{MaxDepth: d2, Deadline: dl, ReplayLeaf: 30}},
-				{Name: "one chain, longer sequences", Spec: one, Cfg: engine.Config{MaxDepth: d1, Deadline: dl, ReplayLeaf: 30}}}, []string{
+				{Name: "one chain, longer sequences", Spec: one, Cfg: engine.Config{MaxDepth: d1, Deadline: dl, ReplayLeaf: 30}},
+				{Name: "operator addresses 0xff..fe and 0x00..01", Spec: edge, Cfg: engine.Config{MaxDepth: d2, Deadline: dl, ReplayLeaf: 30}},
+				{Name: "operator addresses 0x00..00 and 0xff..ff", Spec: edge2, Cfg: engine.Config{MaxDepth: d2, Deadline: dl, ReplayLeaf: 30}}}, []string{
 				"validators A, B (bonded), C (unknown to staking); orchestrator accounts o1, o2 and B's own account; external keys e1, e2; chains ethereum, bsc; signer sequences are bumped like the ante handler does (persisting on failure)",
 				"that the transaction is signed by the account MsgDelegateKeys.GetSigners names is enforced by the SDK ante handler; the check verifies GetSigners names exactly the validator's own account",
 				"only-if direction: a successful registration must carry a valid signature of the external key over (validator, sequence) and keep the registry one-to-one; rejecting a valid one is not a violation",
